@@ -236,9 +236,12 @@ fn operands(l: Layout, g: u32, tier: Tier) -> Vec<u128> {
     let top = if l.signed { l.w - 1 } else { l.w };
     let one = 1u128 << l.frac;
     for n in 0..=300u128 {
-        if l.frac + 9 <= top {
+        // every small integer (and integer + 1/2) that the type can hold
+        if l.frac < 128 && n < (1u128 << (top - l.frac).min(120)) {
             push_unique(&mut v, &mut seen, n << l.frac, m);
-            push_unique(&mut v, &mut seen, (n << l.frac) + (one >> 1), m);
+            if l.frac >= 1 {
+                push_unique(&mut v, &mut seen, (n << l.frac) + (one >> 1), m);
+            }
             if l.signed {
                 push_unique(&mut v, &mut seen, (n << l.frac).wrapping_neg(), m);
             }
@@ -282,6 +285,10 @@ fn exponents(tier: Tier) -> Vec<i32> {
     v
 }
 
+fn m_mask(w: u32) -> u128 {
+    mask(w)
+}
+
 fn angles(t: Layout, limit: u32, gq: u32, tier: Tier) -> Vec<u128> {
     let m = mask(t.w);
     let mut v = vec![];
@@ -301,6 +308,50 @@ fn angles(t: Layout, limit: u32, gq: u32, tier: Tier) -> Vec<u128> {
     for b in alpha::boundary(t, tier) {
         if in_range(b) {
             push_unique(&mut v, &mut seen, b, m);
+        }
+    }
+    // angles at which the CORDIC residual becomes exactly zero after k <= 8 steps: signed sums of the first
+    // table angles atan(2^-i) as the library truncates them to the type's resolution, in several periods, and
+    // the same shifted by the pi/2 phase of cos and halved for tan (shortcut visible in the code: the loop has a
+    // commented-out early exit on z == 0)
+    {
+        const ATAN: [u128; 9] = [
+            0xC90FDAA22168C0000000000000000000,
+            0x76B19C1586ED3C000000000000000000,
+            0x3EB6EBF25901BA000000000000000000,
+            0x1FD5BA9AAC2F6E000000000000000000,
+            0x0FFAADDB967EF5000000000000000000,
+            0x07FF556EEA5D89400000000000000000,
+            0x03FFEAAB776E53600000000000000000,
+            0x01FFFD555BBBA9700000000000000000,
+            0x00FFFFAAAADDDDB80000000000000000,
+        ];
+        let tab: Vec<i128> = ATAN.iter().map(|&a| (a >> (128 - t.frac)) as i128).collect();
+        // the module's I9F23 constants widened to the type
+        let pi24 = hp::pi().0.shr_floor(hp::HF - 24).to_i128().unwrap(); // floor(pi * 2^24) = TWO_PI in I9F23 bits
+        let two_pi = (pi24) << (t.frac - 23);
+        let half_pi = (pi24 >> 2) << (t.frac - 23);
+        let kmax = if tier == Tier::Quick { 6 } else { 9 };
+        for k in 1..=kmax {
+            for signs in 0..(1u32 << k) {
+                let mut sum: i128 = 0;
+                for i in 0..k {
+                    if signs >> i & 1 == 1 {
+                        sum -= tab[i];
+                    } else {
+                        sum += tab[i];
+                    }
+                }
+                for m in [0i128, 1, -1, 7, -25] {
+                    let base = sum + m * two_pi;
+                    for x in [base, base - half_pi, base + half_pi, base / 2, (base - half_pi) / 2] {
+                        let r = x as u128 & m_mask(t.w);
+                        if in_range(r) {
+                            push_unique(&mut v, &mut seen, r, m_mask(t.w));
+                        }
+                    }
+                }
+            }
         }
     }
     // neighbourhood of every multiple of pi/2, and points approaching it (poles of tan)
@@ -547,10 +598,10 @@ fn explore_pair(p: &Pair, func: usize, prop: Prop, tier: Tier, chunk: Option<(us
         let exps: Vec<u128> = {
             let mut v = operands(s, if tier == Tier::Quick { 0 } else { 1 }, Tier::Quick);
             // exponents of moderate size matter most
-            let one = 1i128 << s.frac;
+            let one = 1i128 << s.frac.min(118);
             v.retain(|&y| {
                 let z = s.z(y).to_i128().unwrap();
-                z.unsigned_abs() <= 64 * one as u128
+                z.unsigned_abs() <= 300 * one as u128
             });
             // ... but the extremes of the exponent range belong to the domain too
             let seen: std::collections::HashSet<u128> = v.iter().cloned().collect();
